@@ -269,33 +269,20 @@ def check_variables(ctx):
             ctx.need(steps_fn is not None, f'{d}: decoder of {tok} not found')
             hf, fn, var = steps_fn
 
-            def decode(text, fn=fn, var=var):
-                env = {var: text}
-                def run(stmts):
-                    for st in stmts:
-                        if isinstance(st, ast.Expr) and isinstance(st.value, ast.Constant):
-                            continue
-                        if isinstance(st, ast.Assign) and norm(st.targets[0]) == var:
-                            root, ch = chain_steps(st.value)
-                            if norm(root) == var and all(not s[0].endswith('?') for s in ch):
-                                env[var] = apply_steps(ch, env[var])
-                            else:
-                                # strip(value[0]) style: evaluate argument
-                                if isinstance(st.value, ast.Call) and isinstance(st.value.func, ast.Attribute) and st.value.func.attr in (
-                                        'strip', 'lstrip') and norm(st.value.func.value) == var:
-                                    arg = peval.ev(st.value.args[0], {var.split('.')[0]: _Obj(env[var]), var: env[var]}) if st.value.args else None
-                                    env[var] = getattr(env[var], st.value.func.attr)(arg)
-                                else:
-                                    raise AnalysisError(f'{hf}:{st.lineno}: unmodelled variable decoder step `{norm(st)}`')
-                        elif isinstance(st, ast.If):
-                            t = peval.ev(st.test, {var.split('.')[0]: _Obj(env[var]), var: env[var]})
-                            run(st.body if t else st.orelse)
-                        elif isinstance(st, ast.Return):
-                            pass
-                        else:
-                            raise AnalysisError(f'{hf}:{st.lineno}: unmodelled variable decoder statement `{norm(st)}`')
-                run(fn.body)
-                return env[var]
+            def decode(text, fn=fn, var=var, hf=hf):
+                # the decoder (lexer action or grammar helper) interpreted on the token text
+                from ..interp import Interp, Obj, Raised, Env
+                it = Interp({}, {})
+                it.module = ctx.src.tree(hf)
+                try:
+                    if var == 't.value':
+                        tokobj = Obj('Token', value=text, type=tok, lineno=1, index=0, end=len(text))
+                        out = it.call_function(fn, [Obj('Lexer'), tokobj], {}, Env())
+                        out = out if out is not None else tokobj
+                        return out.value if isinstance(out, Obj) else out
+                    return it.call_function(fn, [text], {}, Env())
+                except Raised as r:
+                    return f'<raises {r.exc_name}>'
             probes = []
             for name in ['a', 'a.b', 'A_b$', 'x y', 'a-b', "it's", 'q"q', 'b`t', '@x', 'x@', "x'", 'a.b c', 'v1x', 'a1', '_9', 'a$b', 'x.y2', 'A', '1a']:
                 for form in (name, f"'{name}'", f'"{name}"', f'`{name}`'):
